@@ -532,8 +532,14 @@ func genOnce(r *Rand, pkg string, prof Profile) *Spec {
 			outs[i], outs[j] = outs[j], outs[i]
 		}
 		k := 2 + r.Intn(3)
-		if shape == "ladder" || (shape == "layered" && r.Chance(1, 3)) {
+		if shape == "layered" && r.Chance(1, 3) {
 			k = 3 + r.Intn(6) // a wide sink: consumes most of what the graph produces
+		}
+		if shape == "ladder" {
+			k = 10 // the sink consumes every value the ladder produces (capped by what exists)
+			if r.Chance(1, 4) {
+				k = 3 + r.Intn(6)
+			}
 		}
 		if k > len(outs) {
 			k = len(outs)
